@@ -61,6 +61,9 @@ class _LazyAliases:
         for e, alias, _ in items:
             if alias is not None and not isinstance(e, A.Star):
                 self.m.setdefault(alias.lower(), e)
+        for e, alias, _ in items:
+            if alias is None and isinstance(e, A.Name):
+                self.m.setdefault(e.parts[-1], e)
         self.X = X
         self.sc = sc
 
@@ -115,8 +118,6 @@ class QueryMixin:
             rows += res.rows
             if not is_all:
                 rows = self._distinct(rows)
-        if len(results) > 1 and not any(u.alls) and len(results) == 1:
-            rows = self._distinct(rows)
         cols = first.columns
         if u.order_by:
             names = [c[0].lower() for c in cols]
@@ -531,6 +532,17 @@ class QueryMixin:
         columns = [(name, tbl) for _, name, tbl, _ in items]
         fns = [f for f, _, _, _ in items]
         alias_keys = [(i, k) for i, (_, _, _, k) in enumerate(items) if k is not None]
+        _seen = {k for _, k in alias_keys}
+        # non-aliased plain columns are addressable by their name too (after real aliases)
+        pos = 0
+        for e, alias, _ in sel.items:
+            if isinstance(e, A.Star):
+                pos = None
+                break
+            if alias is None and isinstance(e, A.Name) and e.parts[-1] not in _seen:
+                _seen.add(e.parts[-1])
+                alias_keys.append((pos, e.parts[-1]))
+            pos += 1
         grouped = bool(sel.group_by) or any(has_aggregate(e) for e, _, _ in sel.items) or has_aggregate(sel.having) \
             or has_aggregate([e for e, _ in (sel.order_by or [])])
         windows: List[Any] = []
